@@ -123,10 +123,19 @@ Definition keys_ok (i : rinfo) : Prop :=
   (forall n, In n (raft_nodes i) -> In n (keys (raft_ids i))) /\
   (forall n, In n (keys (removings i)) -> In n (raft_nodes i)).
 
-(* Inv: well-formed, at most one replica marked for removal, the remaining replicas a strict
-   majority of the replication factor *)
+(* Inv: well-formed, at most one replica marked for removal, and (when q = true) the remaining replicas a
+   strict majority of the replication factor. The development is carried out for both values of q:
+   q = false is what survives arbitrary changes of the replication factor, q = true is the full invariant. *)
+Section WithQ.
+Variable q : bool.
 Definition Inv (replica : N) (i : rinfo) : Prop :=
-  wf i /\ len (removings i) <= 1 /\ replica / 2 < len (isr i).
+  wf i /\ len (removings i) <= 1 /\ (q = true -> replica / 2 < len (isr i)).
+
+Lemma Inv_lower : forall r r' i, Inv r i -> r' <= r -> Inv r' i.
+Proof.
+  intros r r' i [Hw [Hl Hq]] Hle. split; [exact Hw|]. split; [exact Hl|].
+  intros Hq'. specialize (Hq Hq'). assert (r' / 2 <= r / 2) by (apply N.div_le_mono; lia). lia.
+Qed.
 
 Lemma is_quorum_spec : forall replica i, is_quorum replica i = true <-> replica / 2 < len (isr i).
 Proof. intros. unfold is_quorum. rewrite N.ltb_lt. reflexivity. Qed.
@@ -303,8 +312,13 @@ Proof.
     + exfalso. unfold len in Hl. simpl in Hl. lia.
 Qed.
 
+(* shrink clause: whatever q, a write that makes the set of non-removing replicas smaller leaves a strict
+   majority of the replication factor in effect *)
+Definition shrink_ok (replica : N) (b v : rinfo) : Prop :=
+  len (isr v) < len (isr b) -> replica / 2 < len (isr v).
 Definition att_ok (replica : N) (a : attempt) : Prop :=
-  Inv replica (a_before a) /\ Inv replica (a_value a) /\ trans (a_before a) (a_value a).
+  Inv replica (a_before a) /\ Inv replica (a_value a) /\ trans (a_before a) (a_value a) /\
+  shrink_ok replica (a_before a) (a_value a).
 
 (* the attempts of a run form a chain over the stored register value *)
 Inductive chain : rinfo -> list attempt -> rinfo -> Prop :=
@@ -347,7 +361,7 @@ Proof. intros. simpl. split; [assumption|]. split; [reflexivity|]. split; constr
 
 (* the common tail of every procedure: one update attempt with a checked value *)
 Lemma pspec_update : forall {C : Type} replica (P : attempt -> Prop) r v (c1 c2 : C),
-  Inv replica (r_info r) -> Inv replica v -> trans (r_info r) v ->
+  Inv replica (r_info r) -> Inv replica v -> trans (r_info r) v -> shrink_ok replica (r_info r) v ->
   (forall a, a_before a = r_info r -> a_value a = v -> P a) ->
   pspec replica P r
     (match reg_update r v (epoch v) with
@@ -355,15 +369,15 @@ Lemma pspec_update : forall {C : Type} replica (P : attempt -> Prop) r v (c1 c2 
      | (r', None, a) => (c2, r', r_info r, [a])
      end).
 Proof.
-  intros C replica P r v c1 c2 Hi Hv Ht HP.
+  intros C replica P r v c1 c2 Hi Hv Ht Hsh HP.
   destruct (reg_update r v (epoch v)) as [[r' o] a] eqn:E.
   apply reg_update_spec in E. destruct E as [Hb [Hval [[Ho [Hr Hk]]|[e [Ho [Hr Hk]]]]]]; subst o; simpl.
   - rewrite Hr. split; [exact Hi|]. split; [reflexivity|]. split.
-    + constructor; [|constructor]. split; [split; [rewrite Hb; exact Hi|split; [rewrite Hval; exact Hv|rewrite Hb, Hval; exact Ht]]|apply HP; assumption].
+    + constructor; [|constructor]. split; [split; [rewrite Hb; exact Hi|split; [rewrite Hval; exact Hv|split; [rewrite Hb, Hval; exact Ht|rewrite Hb, Hval; exact Hsh]]]|apply HP; assumption].
     + apply chain_fail; [exact Hb|exact Hk|constructor].
   - rewrite Hr. split; [|split; [reflexivity|split]].
     + apply Inv_set_epoch. exact Hv.
-    + constructor; [|constructor]. split; [split; [rewrite Hb; exact Hi|split; [rewrite Hval; exact Hv|rewrite Hb, Hval; exact Ht]]|apply HP; assumption].
+    + constructor; [|constructor]. split; [split; [rewrite Hb; exact Hi|split; [rewrite Hval; exact Hv|split; [rewrite Hb, Hval; exact Ht|rewrite Hb, Hval; exact Hsh]]]|apply HP; assumption].
     + eapply chain_ok; [exact Hb|exact Hk|]. rewrite Hval. constructor.
 Qed.
 
@@ -409,6 +423,7 @@ Proof.
     + simpl. exact Hl.
     + rewrite isr_add; [rewrite len_app; unfold len at 2; simpl; lia|]. rewrite E1. simpl. tauto.
   - apply trans_add.
+  - intros Hlt. exfalso. rewrite isr_add in Hlt; [rewrite len_app in Hlt; lia|]. rewrite E1. simpl. tauto.
   - intros a Hb Hv. apply HP; assumption.
 Qed.
 
@@ -431,8 +446,9 @@ Proof.
   - split; [|split].
     + apply wf_mark. exact Hw.
     + apply N.ltb_ge in E6. exact E6.
-    + apply is_quorum_spec. exact E5.
+    + intros _. apply is_quorum_spec. exact E5.
   - apply trans_mark.
+  - intros _. apply is_quorum_spec. exact E5.
   - exact HP.
 Qed.
 
@@ -477,8 +493,9 @@ Proof.
   - exact Hi.
   - split; [exact Hw|]. split.
     + destruct Hi as [_ [Hl _]]. assert (H := sh_rm _ _ Hs). lia.
-    + apply is_quorum_spec. exact Eq.
+    + intros _. apply is_quorum_spec. exact Eq.
   - apply shrinks_trans; [destruct Hi as [_ [Hl _]]; exact Hl|exact Hs].
+  - intros _. apply is_quorum_spec. exact Eq.
   - intros a Hb Hv. apply HP; [exact Hb|]. rewrite Hv. exact Hs.
 Qed.
 
@@ -544,8 +561,8 @@ Proof.
   destruct chg2; cbn [andb]; [|apply pspec_noop; exact Hi].
   destruct (is_quorum replica ns2) eqn:Eq; [|apply pspec_noop; exact Hi].
   destruct (1 <? len (removings ns2)) eqn:E1; [apply pspec_noop; exact Hi|].
-  apply pspec_update; [exact Hi| |exact Ht|exact HP].
-  split; [exact Hw|]. split; [apply N.ltb_ge in E1; exact E1|apply is_quorum_spec; exact Eq].
+  apply pspec_update; [exact Hi| |exact Ht|intros _; apply is_quorum_spec; exact Eq|exact HP].
+  split; [exact Hw|]. split; [apply N.ltb_ge in E1; exact E1|intros _; apply is_quorum_spec; exact Eq].
 Qed.
 
 Lemma no_new_node_same : forall a, raft_nodes (a_value a) = raft_nodes (a_before a) -> ~ new_node a.
@@ -758,7 +775,8 @@ Proof.
   destruct (need && s_auto s) eqn:Ena.
   - assert (Hneed : need = true) by (apply andb_true_iff in Ena; tauto).
     destruct (s_waiting s) as [ft|].
-    + destruct (ft <? s_now s - wait_migrate).
+    + destruct (s_upgrading s); [apply check_finish_spec; exact H1|].
+      destruct (ft <? s_now s - wait_migrate).
       * assert (Hm := handle_migrate_spec (s_replica s) (s_ans s) (s_now s) r1 (s_nepoch s) (avail_nodes s) (s_nepoch s) pv Hi1).
         destruct (handle_migrate (s_replica s) (s_ans s) (s_now s) r1 (s_nepoch s) (r_info r1) (avail_nodes s) (s_nepoch s) pv)
           as [[[c r2] info2] w2].
@@ -845,10 +863,15 @@ Proof.
     { subst ns. simpl. apply swap_to_front_perm. }
     assert (Hv : Inv replica ns1) by (subst ns; apply (Inv_perm replica (r_info r) _ Hi Hperm)).
     assert (Ht : trans (r_info r) ns1) by (subst ns; apply (trans_perm (r_info r) _ Hperm)).
+    assert (Hsh : shrink_ok replica (r_info r) ns1).
+    { intros Hlt. exfalso.
+      assert (Hpi : Permutation (isr ns1) (isr (r_info r))).
+      { unfold isr. subst ns. simpl. apply Permutation_filter'. exact Hperm. }
+      apply Permutation_length in Hpi. unfold len in Hlt. lia. }
     destruct (reg_update r ns1 (epoch ns)) as [[r' o] a] eqn:Eu. apply reg_update_spec in Eu.
     destruct Eu as [Hb [Hval [[Ho [Hr Hk]]|[e [Ho [Hr Hk]]]]]]; subst o.
     + simpl. exists [a]. split; [reflexivity|]. split; [rewrite Hr; exact Hi|]. split.
-      * constructor; [|constructor]. split; [split; [rewrite Hb; exact Hi|split; [rewrite Hval; exact Hv|rewrite Hb, Hval; exact Ht]]|].
+      * constructor; [|constructor]. split; [split; [rewrite Hb; exact Hi|split; [rewrite Hval; exact Hv|split; [rewrite Hb, Hval; exact Ht|rewrite Hb, Hval; exact Hsh]]]|].
         apply HP; [rewrite Hb, Hval; subst ns; reflexivity|].
         intros y Hy. rewrite Hb. rewrite Hval in Hy. eapply Permutation_in; [exact Hperm|exact Hy].
       * rewrite Hr. apply chain_fail; [exact Hb|exact Hk|constructor].
@@ -857,7 +880,7 @@ Proof.
       destruct (IH (S idx) (r_info r') r' true (atts0 ++ [a]) HP eq_refl Hi') as [w [Hw1 Hw2]].
       exists (a :: w). split; [rewrite Hw1, <- app_assoc; reflexivity|].
       destruct Hw2 as [A1 [A2 A3]]. split; [exact A1|]. split.
-      * constructor; [|exact A2]. split; [split; [rewrite Hb; exact Hi|split; [rewrite Hval; exact Hv|rewrite Hb, Hval; exact Ht]]|].
+      * constructor; [|exact A2]. split; [split; [rewrite Hb; exact Hi|split; [rewrite Hval; exact Hv|split; [rewrite Hb, Hval; exact Ht|rewrite Hb, Hval; exact Hsh]]]|].
         apply HP; [rewrite Hb, Hval; subst ns; reflexivity|].
         intros y Hy. rewrite Hb. rewrite Hval in Hy. eapply Permutation_in; [exact Hperm|exact Hy].
       * apply chain_ok with (e := e); [exact Hb|exact Hk|]. rewrite Hval, <- Hr. exact A3.
@@ -923,7 +946,7 @@ Proof.
     by (simpl; split; [reflexivity|apply sspec_nil; exact Hi]).
   assert (Hnil' : forall b : bres, res3_spec (bal_P (s_ans s)) s (s, b, @nil attempt))
     by (intros b; simpl; split; [reflexivity|apply sspec_nil; exact Hi]).
-  destruct (s_unstable s); [apply Hnil'|].
+  destruct (s_unstable s || s_upgrading s); [apply Hnil'|].
   destruct (0 <? len (s_rmnodes s)); [apply Hnil'|].
   destruct (0 <? len (removings (r_info (s_reg s)))); [apply Hnil'|].
   destruct (all_ready (s_ans s) (r_info (s_reg s))) eqn:Er; cbn [negb]; [|apply Hnil'].
@@ -1076,6 +1099,7 @@ Proof.
   - apply Inv_ids_only; assumption.
   - apply trans_ids_only; [lia|]. intros n id Hin. unfold aset in Hin. rewrite in_app_iff in Hin.
     destruct Hin as [Hin|[Hin|[]]]; [left; apply In_aremove in Hin; tauto|inversion Hin; right; lia].
+  - intros Hlt. exfalso. unfold with_learners, isr in Hlt. simpl in Hlt. lia.
   - intros a Hb Hv. eapply quiet_with_learners; eassumption.
 Qed.
 
@@ -1089,6 +1113,7 @@ Proof.
   - exact Hi.
   - apply Inv_ids_only; [exact Hi|apply (wf_ids_nodup _ Hw)|apply (wf_ids_inj _ Hw)|apply (wf_ids_max _ Hw)].
   - apply trans_ids_only; [lia|auto].
+  - intros Hlt. exfalso. unfold with_learners, isr in Hlt. simpl in Hlt. lia.
   - intros a Hb Hv. eapply quiet_with_learners; eassumption.
 Qed.
 
@@ -1125,6 +1150,7 @@ Proof.
   - exact Hi.
   - apply Inv_ids_only; assumption.
   - apply trans_ids_only; [lia|]. intros n id Hin. left. apply In_aremove in Hin. tauto.
+  - intros Hlt. exfalso. unfold with_learners, isr in Hlt. simpl in Hlt. lia.
   - intros a Hb Hv. eapply quiet_with_learners; eassumption.
 Qed.
 
@@ -1140,6 +1166,7 @@ Proof.
   - exact Hi.
   - apply Inv_ids_only; assumption.
   - apply trans_ids_only; [lia|]. intros n id Hin. left. apply D. exact Hin.
+  - intros Hlt. exfalso. unfold with_learners, isr in Hlt. simpl in Hlt. lia.
   - intros a Hb Hv. eapply quiet_with_learners; eassumption.
 Qed.
 
@@ -1203,11 +1230,20 @@ Definition step_P (s : st) (e : event) (a : attempt) : Prop :=
   | _ => True
   end.
 
+(* a step keeps the replication factor, or (ChangeNamespaceMetaParam) changes it without touching the replica info *)
+Definition step_res (P : attempt -> Prop) (s : st) {B} (res : st * B * list attempt) : Prop :=
+  let '(s', _, atts) := res in
+  sspec (s_replica s) P (s_reg s) (s_reg s') atts /\
+  (s_replica s' = s_replica s \/ (atts = [] /\ r_info (s_reg s') = r_info (s_reg s))).
+Lemma res3_step_res : forall P s B (res : st * B * list attempt), res3_spec P s res -> step_res P s res.
+Proof. intros P s B [[s' b] w] [H1 H2]. split; [exact H2|left; exact H1]. Qed.
+
 Lemma step_spec : forall s e,
   Inv (s_replica s) (r_info (s_reg s)) ->
-  res3_spec (step_P s e) s (step s e).
+  step_res (step_P s e) s (step s e).
 Proof.
-  intros s e Hi. destruct e; simpl step.
+  intros s e Hi. destruct e; simpl step;
+    match goal with |- step_res _ _ (if _ then _ else _) => idtac | _ => apply res3_step_res end.
   - (* ENodes *) unfold nodes_event. simpl. split; [reflexivity|apply sspec_nil; exact Hi].
   - simpl. split; [reflexivity|apply sspec_nil; exact Hi].
   - simpl. split; [reflexivity|apply sspec_nil; exact Hi].
@@ -1263,33 +1299,69 @@ Proof.
     assert (H := learner_remove_all_spec (s_replica s) (s_reg s) Hi).
     destruct (learner_remove_all (s_reg s) (r_info (s_reg s))) as [[[c r] i] w].
     apply pspec_sspec in H. destruct H as [H _]. simpl. split; [reflexivity|]. eapply sspec_weaken; [|exact H]. intros ? _. exact I.
+  - (* EReplica *)
+    destruct (5 <? r); [split; [apply sspec_nil; exact Hi|left; reflexivity]|].
+    destruct (len (avail_nodes s) <? (if 0 <? r then r else s_replica s));
+      [split; [apply sspec_nil; exact Hi|left; reflexivity]|].
+    split; [apply sspec_same_info; [reflexivity|exact Hi]|right; split; reflexivity].
+  - (* EUpgrade *) simpl. split; [reflexivity|apply sspec_nil; exact Hi].
 Qed.
 
-Lemma run_spec_gen : forall evs s acc,
-  Inv (s_replica s) (r_info (s_reg s)) ->
-  exists w, snd (fold_left run_step evs (s, acc)) = acc ++ w /\
-    s_replica (fst (fold_left run_step evs (s, acc))) = s_replica s /\
-    sspec (s_replica s) (fun _ => True) (s_reg s) (s_reg (fst (fold_left run_step evs (s, acc)))) w.
+(* the replication factor is never raised along the run (only needed for q = true) *)
+Fixpoint lowering_only (s : st) (evs : list event) : Prop :=
+  match evs with
+  | [] => True
+  | e :: t => s_replica (fst (fst (step s e))) <= s_replica s /\ lowering_only (fst (fst (step s e))) t
+  end.
+
+Lemma Inv_change : forall r r' i, Inv r i -> (q = true -> r' <= r) -> Inv r' i.
 Proof.
-  induction evs as [|e evs IH]; intros s acc Hi; simpl.
-  - exists []. rewrite app_nil_r. split; [reflexivity|]. split; [reflexivity|apply sspec_nil; exact Hi].
+  intros r r' i [Hw [Hl Hq]] H. split; [exact Hw|]. split; [exact Hl|].
+  intros Hq'. specialize (Hq Hq'). specialize (H Hq'). assert (r' / 2 <= r / 2) by (apply N.div_le_mono; lia). lia.
+Qed.
+
+Definition tagged_ok (l : list (N * attempt)) : Prop := Forall (fun ra => att_ok (fst ra) (snd ra)) l.
+
+Lemma map_snd_tag : forall (r : N) (w : list attempt), map snd (map (fun a => (r, a)) w) = w.
+Proof. intros. rewrite map_map. simpl. apply map_id. Qed.
+
+Lemma run_spec_gen : forall evs s acc,
+  Inv (s_replica s) (r_info (s_reg s)) -> (q = true -> lowering_only s evs) ->
+  exists w, snd (fold_left run_step evs (s, acc)) = acc ++ w /\ tagged_ok w /\
+    chain (r_info (s_reg s)) (map snd w) (r_info (s_reg (fst (fold_left run_step evs (s, acc))))) /\
+    Inv (s_replica (fst (fold_left run_step evs (s, acc)))) (r_info (s_reg (fst (fold_left run_step evs (s, acc))))).
+Proof.
+  induction evs as [|e evs IH]; intros s acc Hi Hlow; simpl.
+  - exists []. rewrite app_nil_r. split; [reflexivity|]. split; [constructor|]. split; [constructor|exact Hi].
   - assert (Hs := step_spec s e Hi).
-    assert (Hrs : run_step (s, acc) e = (fst (fst (step s e)), acc ++ snd (step s e))).
+    assert (Hrs : run_step (s, acc) e =
+                  (fst (fst (step s e)), acc ++ map (fun a => (s_replica s, a)) (snd (step s e)))).
     { unfold run_step. simpl. destruct (step s e) as [[? ?] ?]. reflexivity. }
-    rewrite Hrs. clear Hrs. destruct (step s e) as [[s1 rt] w1]. simpl fst. simpl snd. destruct Hs as [Hr Hs].
-    assert (Hi1 : Inv (s_replica s1) (r_info (s_reg s1))) by (rewrite Hr; destruct Hs as [H _]; exact H).
-    destruct (IH s1 (acc ++ w1) Hi1) as [w [Hw [Hrep Hsp]]].
-    exists (w1 ++ w). split; [rewrite Hw, app_assoc; reflexivity|]. split; [rewrite Hrep; exact Hr|].
-    eapply sspec_app; [eapply sspec_weaken; [|exact Hs]; auto|]. rewrite <- Hr. exact Hsp.
+    rewrite Hrs. clear Hrs.
+    assert (Hlow1 : q = true -> s_replica (fst (fst (step s e))) <= s_replica s /\ lowering_only (fst (fst (step s e))) evs)
+      by (intros Hq'; apply (Hlow Hq')).
+    destruct (step s e) as [[s1 rt] w1]. simpl fst in *. simpl snd in *. destruct Hs as [[Hinv [Hall Hch]] Hrep].
+    assert (Hi1 : Inv (s_replica s1) (r_info (s_reg s1))).
+    { destruct Hrep as [Hr|[_ Hr]]; [rewrite Hr; exact Hinv|].
+      eapply Inv_change; [exact Hinv|]. intros Hq'. apply (Hlow1 Hq'). }
+    destruct (IH s1 (acc ++ map (fun a => (s_replica s, a)) w1) Hi1) as [w [Hw [Htag [Hch2 Hfin]]]].
+    { intros Hq'. apply (Hlow1 Hq'). }
+    exists (map (fun a => (s_replica s, a)) w1 ++ w). split; [rewrite Hw, app_assoc; reflexivity|]. split; [|split].
+    + apply Forall_app. split; [|exact Htag]. apply Forall_forall. intros [r a] Hin. apply in_map_iff in Hin.
+      destruct Hin as [a' [He Hin]]. inversion He; subst. simpl.
+      rewrite Forall_forall in Hall. apply (Hall a Hin).
+    + rewrite map_app, map_snd_tag. eapply chain_app; [exact Hch|exact Hch2].
+    + exact Hfin.
 Qed.
 
 Lemma run_spec : forall s evs,
-  Inv (s_replica s) (r_info (s_reg s)) ->
-  s_replica (fst (run s evs)) = s_replica s /\
-  sspec (s_replica s) (fun _ => True) (s_reg s) (s_reg (fst (run s evs))) (snd (run s evs)).
+  Inv (s_replica s) (r_info (s_reg s)) -> (q = true -> lowering_only s evs) ->
+  tagged_ok (snd (run s evs)) /\
+  chain (r_info (s_reg s)) (map snd (snd (run s evs))) (r_info (s_reg (fst (run s evs)))) /\
+  Inv (s_replica (fst (run s evs))) (r_info (s_reg (fst (run s evs)))).
 Proof.
-  intros s evs Hi. unfold run. destruct (run_spec_gen evs s [] Hi) as [w [Hw [Hr Hs]]].
-  simpl in Hw. rewrite Hw. split; assumption.
+  intros s evs Hi Hlow. unfold run. destruct (run_spec_gen evs s [] Hi Hlow) as [w [Hw H]].
+  simpl in Hw. rewrite Hw. exact H.
 Qed.
 
 (* ids are never reused: an id newly assigned by any update attempt does not occur in the initial value nor
@@ -1303,22 +1375,22 @@ Fixpoint never_reused (used : list N) (atts : list attempt) : Prop :=
       never_reused (if a_ok a then ids_of (a_value a) ++ used else used) t
   end.
 
-Lemma chain_never_reused : forall replica c atts f,
-  chain c atts f -> Forall (att_ok replica) atts ->
+Lemma chain_never_reused : forall c atts f,
+  chain c atts f -> Forall (fun a => wf (a_value a) /\ trans (a_before a) (a_value a)) atts ->
   forall used, (forall id, In id used -> id <= max_id c) -> never_reused used atts.
 Proof.
-  intros replica c atts f H. induction H as [c|c a t f Hb Hk Hc IH|c a t f e Hb Hk Hc IH]; intros Hall used Hu; simpl.
+  intros c atts f H. induction H as [c|c a t f Hb Hk Hc IH|c a t f e Hb Hk Hc IH]; intros Hall used Hu; simpl.
   - exact I.
-  - inversion Hall as [|? ? [Hib [Hinv Htr]] Hall']; subst. split.
+  - inversion Hall as [|? ? [Hwv Htr] Hall']; subst. split.
     + intros n id Hin Hnot Hused. apply (tr_ids _ _ Htr) in Hin. destruct Hin as [Hin|Hin]; [contradiction|].
       apply Hu in Hused. lia.
     + rewrite Hk. apply IH; assumption.
-  - inversion Hall as [|? ? [Hib [Hinv Htr]] Hall']; subst. split.
+  - inversion Hall as [|? ? [Hwv Htr] Hall']; subst. split.
     + intros n id Hin Hnot Hused. apply (tr_ids _ _ Htr) in Hin. destruct Hin as [Hin|Hin]; [contradiction|].
       apply Hu in Hused. lia.
     + rewrite Hk. apply IH; [exact Hall'|]. intros id Hid. simpl. apply in_app_iff in Hid. destruct Hid as [Hid|Hid].
       * unfold ids_of in Hid. apply in_map_iff in Hid. destruct Hid as [[n id'] [He Hid]]. simpl in He. subst id'.
-        destruct Hinv as [Hw _]. apply (wf_ids_max _ Hw n id Hid).
+        apply (wf_ids_max _ Hwv n id Hid).
       * apply Hu in Hid. assert (Hm := tr_max _ _ Htr). lia.
 Qed.
 
@@ -1359,5 +1431,11 @@ Proof.
   destruct (len (isr (fold_left add_node l empty_info)) <=? replica / 2) eqn:E; [discriminate|].
   inversion H; subst. clear H.
   destruct (fold_add_wf l empty_info wf_empty eq_refl Hn) as [Hw Hr]; [intros x _ []|].
-  split; [exact Hw|]. split; [rewrite Hr; unfold len; simpl; lia|]. apply N.leb_gt in E. exact E.
+  split; [exact Hw|]. split; [rewrite Hr; unfold len; simpl; lia|]. apply N.leb_gt in E. intros _. exact E.
 Qed.
+
+Lemma init_inv : forall replica info auto, Inv replica info ->
+  Inv (s_replica (init_state replica info auto)) (r_info (s_reg (init_state replica info auto))).
+Proof. intros. simpl. apply Inv_set_epoch. assumption. Qed.
+
+End WithQ.
